@@ -32,7 +32,7 @@ def run(mods, fns, repo="/repo", verbose=True):
     print(f"solve {time.time()-t0:.1f}s, {len(E.obligations)} instances")
     bad = 0
     for r in res:
-        if r.status != "discharged" or verbose or r.time > 4:
+        if r.status != "discharged" or verbose or r.time > 2.5:
             print(f"  {r.status:11s} {r.name}  [{','.join(sorted(r.backends))}] {r.time:.2f}s x{r.instances}  {r.reason[:100] if r.status!='discharged' else ''}")
         if r.status != "discharged":
             bad += 1
